@@ -474,7 +474,7 @@ Definition build_trie (V s : Z) (dicts : list dict) : option built :=
                     | uni :: higher => add_missing uni (map (fun x => [x]) uni_toks) :: higher
                     end in
       let total := fold_right (fun d acc => zlen d + acc) 0 closed in
-      let G := zlen top in
+      let G := zlen (last closed []) in   (* len of the highest-order dict, after completion *)
       let ren := fun x => if shiftb V s && (x =? s) then V else x in
       let closed := map (fun d => map (fun e => (map ren (fst e), snd e)) d) closed in
       let one_mod_N := if Nat.eqb N 1 then 0 else 1 in
